@@ -581,7 +581,7 @@ func main() {
 		}
 		// vh.NewRand gives overlapping streams for neighbouring seeds; re-key
 		root := vh.NewRand(int64(uint64(c.Seed)*0xD1342543DE82EF95 + 0x632BE59BD9B4E019))
-		n := c.N(400, 20000)
+		n := c.N(300, 5000)
 		for i := 0; i < n; i++ {
 			r := root.Fork()
 			do(genSchedule(r, r.Pick(4, 8, 16, 30, 45)))
